@@ -24,6 +24,12 @@ use crate::common::*;
 
 pub fn main(args: &[String]) {
     silence_panics();
+    if args[0] == "replay" {
+        let mut out = Out::create(&args[2]);
+        replay_trees(&args[1], &mut out, Path::new(&args[3]));
+        eprintln!("{} records", out.finish());
+        return;
+    }
     let seed: u64 = args[1].parse().unwrap();
     let n: usize = args[2].parse().unwrap();
     let mut out = Out::create(&args[3]);
@@ -615,8 +621,97 @@ fn rel_path(from_dir: &str, to_dir: &str, file: &str) -> String {
     rel.display().to_string()
 }
 
-fn fs_trees(r: &mut StdRng, n: usize, out: &mut Out, scratch: &Path) {
+/// What the real include-following parser yields for the tree whose top file is `top` (file indices by canonical path).
+fn parse_tree(top: &Path, max_depth: usize, canon: &[PathBuf]) -> Vec<Value> {
     use quandary::zone_file::fs;
+    match catch_unwind(AssertUnwindSafe(|| {
+        let mut got: Vec<Value> = Vec::new();
+        match fs::Parser::open(top, max_depth) {
+            Ok(p) => {
+                for line in p {
+                    match line {
+                        Ok(l) => {
+                            let idx = std::fs::canonicalize(l.path.as_ref()).ok().and_then(|c| canon.iter().position(|x| *x == c)).unwrap_or(999);
+                            let mut v = jrec(l.number, &l.record);
+                            v["file"] = json!(idx);
+                            got.push(v);
+                        }
+                        Err(_) => got.push(json!({"k": "err"})),
+                    }
+                    if got.len() > 20000 { break; }
+                }
+            }
+            Err(_) => got.push(json!({"k": "err"})),
+        }
+        got
+    })) {
+        Ok(g) => g,
+        Err(_) => vec![json!({"k": "panic"})],
+    }
+}
+
+fn name_of_octets(v: &Value) -> String {
+    let wire: Vec<u8> = v.as_array().unwrap().iter().map(|o| o.as_u64().unwrap() as u8).collect();
+    name_of_wire(&wire).to_string()
+}
+
+/// (G) qv zonefile replay <trees> <out> <scratch>: every line of <trees> is one initial state of MC_ZoneFile as
+/// exported by TLC ({"files": [items of file 0, 1, 2], "md": depth limit}); the items are rendered as text (file i
+/// into its own directory, $INCLUDE paths relative to the including file's directory), the real parser follows the
+/// includes, and the result is recorded in the format of the random trees ("Tree").
+fn replay_trees(hist: &str, out: &mut Out, scratch: &Path) {
+    let text = std::fs::read_to_string(hist).expect("cannot read trees");
+    let base = scratch.join(format!("zfr-{}", std::process::id()));
+    let dirs = ["top", "top/sub", "x/y"];
+    for (t, line) in text.lines().filter(|l| !l.trim().is_empty()).enumerate() {
+        let tree: Value = serde_json::from_str(line).expect("bad tree line");
+        let files = tree["files"].as_array().unwrap();
+        let md = tree["md"].as_u64().unwrap() as usize;
+        let tdir = base.join(format!("t{}", t));
+        let _ = std::fs::remove_dir_all(&tdir);
+        let root = tdir.join("p").join("q");
+        let mut canon: Vec<PathBuf> = Vec::new();
+        for (i, f) in files.iter().enumerate() {
+            let mut txt = String::new();
+            for it in f.as_array().unwrap() {
+                match it["k"].as_str().unwrap() {
+                    "origin" => txt.push_str(&format!("$ORIGIN {}\n", name_of_octets(&it["name"]))),
+                    "ttl" => { txt.push_str(&format!("$TTL {}\n", it["v"])); for _ in 1..it["nl"].as_u64().unwrap() { txt.push('\n'); } }
+                    "include" => {
+                        let j = it["file"].as_u64().unwrap() as usize;
+                        let path = if j < files.len() { rel_path(dirs[i], dirs[j], &format!("f{}.zone", j)) } else { "gone.zone".to_string() };
+                        txt.push_str(&format!("$INCLUDE {}{}\n", path, if it["horigin"].as_bool().unwrap() { format!(" {}", name_of_octets(&it["origin"])) } else { String::new() }));
+                    }
+                    "rec" => {
+                        let o = &it["owner"];
+                        let owner = match o["form"].as_str().unwrap() {
+                            "abs" => name_of_octets(&o["name"]),
+                            "rel" => o["labels"].as_array().unwrap().iter().map(|l| l.as_array().unwrap().iter().map(|c| c.as_u64().unwrap() as u8 as char).collect::<String>()).collect::<Vec<_>>().join("."),
+                            "at" => "@".to_string(),
+                            _ => String::new(),
+                        };
+                        let rd: Vec<String> = it["rdata"].as_array().unwrap().iter().map(|c| c.to_string()).collect();
+                        txt.push_str(&format!("{} {}{}A {}\n", owner, if it["httl"].as_bool().unwrap() { format!("{} ", it["ttl"]) } else { String::new() },
+                                              if it["hclass"].as_bool().unwrap() { "IN " } else { "" }, rd.join(".")));
+                    }
+                    k => panic!("unknown item kind {}", k),
+                }
+            }
+            let d = root.join(dirs[i]);
+            std::fs::create_dir_all(&d).unwrap();
+            let p = d.join(format!("f{}.zone", i));
+            std::fs::write(&p, txt.as_bytes()).unwrap();
+            canon.push(std::fs::canonicalize(&p).unwrap());
+        }
+        let got = parse_tree(&root.join("top").join("f0.zone"), md, &canon);
+        let jfiles: Vec<Value> = files.iter().map(|f| json!({"items": f})).collect();
+        out.emit(json!({"ev": "Tree", "files": jfiles, "max_depth": md, "got": got}));
+        let _ = std::fs::remove_dir_all(&tdir);
+    }
+    let _ = std::fs::remove_dir_all(&base);
+}
+
+fn fs_trees(r: &mut StdRng, n: usize, out: &mut Out, scratch: &Path) {
     let base = scratch.join(format!("zf-{}", std::process::id()));
     for t in 0..n {
         // the tree root sits four levels below its own scratch directory so that a path resolved against the
@@ -666,30 +761,7 @@ fn fs_trees(r: &mut StdRng, n: usize, out: &mut Out, scratch: &Path) {
                 }
             }
         }
-        let got: Vec<Value> = match catch_unwind(AssertUnwindSafe(|| {
-            let mut got: Vec<Value> = Vec::new();
-            match fs::Parser::open(root.join("top").join("f0.zone"), max_depth) {
-                Ok(p) => {
-                    for line in p {
-                        match line {
-                            Ok(l) => {
-                                let idx = std::fs::canonicalize(l.path.as_ref()).ok().and_then(|c| canon.iter().position(|x| *x == c)).unwrap_or(999);
-                                let mut v = jrec(l.number, &l.record);
-                                v["file"] = json!(idx);
-                                got.push(v);
-                            }
-                            Err(_) => got.push(json!({"k": "err"})),
-                        }
-                        if got.len() > 20000 { break; }
-                    }
-                }
-                Err(_) => got.push(json!({"k": "err"})),
-            }
-            got
-        })) {
-            Ok(g) => g,
-            Err(_) => vec![json!({"k": "panic"})],
-        };
+        let got = parse_tree(&root.join("top").join("f0.zone"), max_depth, &canon);
         out.emit(json!({"ev": "Tree", "files": files, "max_depth": max_depth, "got": got}));
         let _ = std::fs::remove_dir_all(&tdir);
     }
